@@ -147,7 +147,8 @@ def causal(evs: List[Ev], zero_len_shared_start_ok: bool = False) -> Optional[st
             covered = [e.stream] if e.name == "Stream Sync" else list(streams)
             for s in covered:
                 for k in streams.get(s, []):
-                    if k.ts <= e.end and k.end > H.end:
+                    # (an activity starting in the very instant the sync record completes was not waited for)
+                    if k.ts < e.end and k.end > H.end:
                         return (f"{e.name} {e.id} (ends {e.end}, host call {h} returns {H.end}): activity {k.id} on stream {s} "
                                 f"starts {k.ts} but ends {k.end}")
     return None
